@@ -32,7 +32,7 @@ META = {
     "shard_timeout": {"quick": 300, "thorough": 3400},
 }
 
-PROFILE = {"n_states": (1, 6), "n_events": (1, 4), "extra_transitions": (0, 7), "p_multi_event": 0.3,
+PROFILE = {"n_states": (1, 6), "n_events": (1, 4), "extra_transitions": (1, 7), "p_multi_event": 0.3,
            "p_guard": 0.5, "p_validator": 0.05, "p_conv": 0.1, "p_inline": 0.25, "p_deco": 0.05,
            "providers": ["sm", "model"], "p_any": 0.25, "p_internal": 0.5, "p_self": 0.35, "p_final": 0.25,
            "async_mode": "none"}
